@@ -18,7 +18,7 @@ def _clone_dir(st):
     """a throw-away copy of the store as it is now (for calibration runs)"""
     c = tl.Store.__new__(tl.Store)
     c.root = st.root + "-k%d" % random.getrandbits(40)
-    shutil.copytree(st.root, c.root)
+    shutil.copytree(st.root, c.root, symlinks=True)
     c.base = os.path.join(c.root, "base")
     c.cfg = os.path.join(c.root, "store.yaml")
     c.default = st.default
